@@ -42,6 +42,9 @@ type PipeCase struct {
 	Steps    []Step `json:"steps"`
 	Duplex   bool   `json:"duplex"`   // last two steps run concurrently in both directions
 	CloseBy  string `json:"close_by"` // client, peer
+	// Early (telnet): the peer starts sending at once, i.e. during the client's option
+	// negotiation window, instead of waiting for it to end.
+	Early bool `json:"early,omitempty"`
 }
 
 var flavours = []string{"standard-shell", "standard-netconf", "telnet", "system-ssh-shell", "system-rawpeer"}
@@ -92,6 +95,7 @@ func genPipe(t *rapid.T) PipeCase {
 		ReadSize: rapid.SampledFrom([]int{1, 64, 8192}).Draw(t, "readSize"),
 		Duplex:   rapid.IntRange(0, 2).Draw(t, "duplex") == 0,
 		CloseBy:  rapid.SampledFrom([]string{"client", "peer"}).Draw(t, "closeBy"),
+		Early:    rapid.Bool().Draw(t, "early"),
 	}
 
 	n := c.ReadSize
@@ -313,8 +317,11 @@ func runPipe(c PipeCase) ev.Verdict {
 
 			defer conn.Close()
 
-			// let the negotiation phase of the client end first: everything after is plain data
-			time.Sleep(120 * time.Millisecond)
+			if !c.Early {
+				// let the negotiation phase of the client end first: everything after is plain data
+				time.Sleep(120 * time.Millisecond)
+			}
+
 			handler(conn)
 		}()
 
@@ -400,19 +407,22 @@ func runPipe(c PipeCase) ev.Verdict {
 
 	readN := func(n int, limit time.Duration) ([]byte, string) {
 		deadline := time.After(limit)
+		idle := time.NewTimer(readIdle)
+
+		defer idle.Stop()
 
 		for len(inbuf) < n {
 			select {
 			case ck := <-rch:
-				if len(ck.b) > c.ReadSize {
-					return nil, fmt.Sprintf("Read returned %d bytes, read size is %d", len(ck.b), c.ReadSize)
-				}
-
 				inbuf = append(inbuf, ck.b...)
 
 				if ck.err != nil {
 					return nil, fmt.Sprintf("Read failed after %d of %d expected bytes: %v", len(inbuf), n, ck.err)
 				}
+
+				idle.Reset(readIdle)
+			case <-idle.C:
+				return nil, fmt.Sprintf("only %d of %d expected bytes arrived, then nothing for %v", len(inbuf), n, readIdle)
 			case <-deadline:
 				return nil, fmt.Sprintf("only %d of %d expected bytes arrived within %v", len(inbuf), n, limit)
 			}
@@ -426,7 +436,12 @@ func runPipe(c PipeCase) ev.Verdict {
 
 	// session-up: skip whatever precedes the peer's sync marker
 	{
-		deadline := time.After(15 * time.Second)
+		upLimit := 15 * time.Second
+		if c.Flavour == "telnet" {
+			upLimit = 5 * time.Second // in-process loopback peer
+		}
+
+		deadline := time.After(upLimit)
 
 		for !bytes.Contains(inbuf, []byte(syncMarker)) {
 			select {
@@ -437,6 +452,12 @@ func runPipe(c PipeCase) ev.Verdict {
 					return ev.Fail("%s: Read failed before the session was up: %v (got %q)", c.Flavour, ck.err, inbuf)
 				}
 			case <-deadline:
+				if c.Flavour == "telnet" {
+					// the peer is in-process and sends the marker unconditionally on accept
+					return ev.Fail("telnet read size %d early=%v: the peer's first %d bytes did not all arrive within 5 s of Open (got %q)",
+						c.ReadSize, c.Early, len(syncMarker), inbuf)
+				}
+
 				return ev.Verdict{OK: true, Infeasible: true, Classes: []string{"session-not-up"}, Note: fmt.Sprintf("%q", inbuf)}
 			}
 		}
@@ -581,6 +602,9 @@ func runPipe(c PipeCase) ev.Verdict {
 
 	return v
 }
+
+// readIdle: how long a local peer may stay silent while bytes it was asked to send are missing.
+const readIdle = 5 * time.Second
 
 var pipeProp = &ev.Prop[PipeCase]{ID: "C16", Name: "pipe", Gen: genPipe, Run: runPipe, WallLimit: 150 * time.Second}
 
